@@ -49,8 +49,7 @@ theorem default_has_exc : defaultHandlers.any (fun h => h.1 == Cls.exc) = true :
 /-- with user handlers only for `Exception` subclasses: claimed ⇔ derives from `Exception` -/
 theorem claimed_iff_exc (p : Program) (hwf : wf p = true) (e : Exc) :
     claimed (handlers p) e = isSub e.cls .exc := by
-  have hu : p.userHandlers.all (fun h => isSub h.1 .exc) = true := by
-    simp only [wf, Bool.and_eq_true] at hwf; exact hwf.1.1.2
+  have hu : p.userHandlers.all (fun h => isSub h.1 .exc) = true := wf_handlers p hwf
   rw [claimed_iff]
   cases hsub : isSub e.cls .exc with
   | true =>
